@@ -8,6 +8,7 @@ ENC = "fastavro/io/binary_encoder.py"
 DEC = "fastavro/io/binary_decoder.py"
 W = "fastavro/_write_py.py"
 R = "fastavro/_read_py.py"
+VP = "fastavro/_validation_py.py"
 
 WRITERS = r"write_(null|boolean|int|long|float|double|bytes|utf8|fixed|enum|array|map|record|data)"
 READERS = r"(read|skip)_(null|boolean|int|long|float|double|bytes|utf8|fixed|enum|array|map|union|record|data)"
@@ -47,7 +48,11 @@ PROPS = {
     "C09": dict(functions=[], lemmas=[], provenance=True,
                 provenance_filter=r"fastavro/(_write_py|_validation_py|_schema_py|_read_py)\.py:.*",
                 bounded="C09", level="other"),
-    "C10": dict(functions=[], lemmas=[], bounded="C10", level="exploration"),
+    # C10: every validator returns exactly VALID (the statement's predicate) in the non-raising mode; the
+    # raising mode, validate()/validate_many() (which parse first) and the writer agreement are bounded
+    "C10": dict(functions=[(VP, r"_validate.*", ".*"), ("fastavro/_schema_py.py", r"schema_name", "default"),
+                           (W, r"Writer\.write", "validating")],
+                lemmas=[], bounded="C10", level="other"),
     "C11": dict(functions=[], lemmas=[], bounded="C11", level="exploration"),
     "C12": dict(functions=[], lemmas=[], bounded="C12", level="exploration"),
     "C13": dict(functions=[], lemmas=[], bounded="C13", level="exploration"),
